@@ -50,3 +50,34 @@ M('C03', 'return-before-verify', CV,
 M('C03', 'client-cache-in-loop1', 'mithril-client/src/certificate_client/verify.rs',
   'current_certificate.as_ref().is_some_and(|c| c.epoch != start_epoch);\n                    if has_crossed_epoch_boundary {',
   'current_certificate.as_ref().is_some_and(|c| c.epoch != start_epoch);\n                    if has_crossed_epoch_boundary || current_certificate.is_some() {', ['verify_chain'], 'cache phase entered without crossing an epoch boundary')
+
+# ---------------------------------------------------------------- C02
+CLERK = STM + 'proof_system/concatenation/clerk.rs'
+M('C02', 'self-competition-guard-removed', CLERK,
+  """                    if previous_sig == sig_reg {
+                        // A repeated copy of the signature already holding this index is not a competitor
+                        continue;
+                    }
+""", '', ['self-competition'], 'F2 comes back')
+M('C02', 'invalid-sig-fatal', CLERK,
+  """                .is_err()
+            {
+                continue;
+            }""", """                .is_err()
+            {
+                return Err(anyhow!(AggregationError::NotEnoughSignatures(0, params.k)));
+            }""", ['skip-invalid'], 'an invalid signature aborts aggregation')
+M('C02', 'all-errors-to-none', 'mithril-aggregator/src/multi_signer.rs',
+  """                _ => Err(err.context(format!(
+                    "Multi Signer can not create multi-signature for entity type '{:?}'",
+                    open_message.signed_entity_type
+                ))),""", """                _ => Ok(None),""", ['create_multi_signature'], 'every aggregation error hidden as "not yet"')
+M('C02', 'aggregate-unselected', STM + 'proof_system/concatenation/proof.rs',
+  """        Ok(Self {
+            signatures: unique_sigs,
+            batch_proof,
+        })""", """        let _ = unique_sigs;
+        Ok(Self {
+            signatures: sig_reg_list,
+            batch_proof,
+        })""", ['from-selection'], 'proof built from unselected signatures')
